@@ -17,6 +17,7 @@ import (
 	"time"
 
 	"github.com/go-critic/go-critic/linter"
+	"golang.org/x/tools/go/packages"
 
 	"verifharness/internal/c04"
 	"verifharness/internal/common"
@@ -260,6 +261,7 @@ func Run(tier string, seed int64, outDir string) *common.Meta {
 	// ---- separate processes ----
 	cliStream(meta, tier, genDir, s1, cliRuns)
 	analysisStream(meta, tier, outDir)
+	testVariantStream(meta, tier, outDir)
 
 	meta.AddSample(map[string]interface{}{"generated": "dup<g>_<i>: g duplicate-import groups; shadow<k>_<i>: k shadowed imports", "example": readFirst(filepath.Join(genDir, "dup3_0", "a.go"))})
 	meta.Rule = "every (checker, file) over S1 + S2 + generated packages (1-5 duplicate-import groups, 2-6 shadowed imports): N ordered warning lists from a reused instance and from brand-new instances must be equal; " +
@@ -448,6 +450,9 @@ func verifOnly%d(m dsl.Matcher) {
 		{"five files, default failOn", strings.Join(files, ","), ""},
 		{"five files, failOn=all", strings.Join(files, ","), "all"},
 		{"glob + explicit duplicates", filepath.Join(dir, "rules_*.go") + "," + files[2] + "," + files[0], ""},
+		// configuration errors are outputs too: the text of the init error must be the same every time
+		{"unknown failOn value", files[0], "verif-unknown"},
+		{"unknown failOn value among valid ones", files[0], "dsl,verif-unknown,all"},
 	}
 	runs := 0
 	for _, v := range variants {
@@ -483,7 +488,11 @@ func verifOnly%d(m dsl.Matcher) {
 				outs = append(outs, fmt.Sprintf("%dx: %s", k, o))
 			}
 			sort.Strings(outs)
-			meta.Fail("C02/ruleguard/rule-file-order", fmt.Sprintf("the dynamic ruleguard checker constructed %d times with the same -@ruleguard.rules list (%s) behaves in %d different ways", n, v.name, len(seen)),
+			key := "C02/ruleguard/rule-file-order"
+			if strings.HasPrefix(v.name, "unknown failOn") {
+				key = "C02/ruleguard/init-error-text-order"
+			}
+			meta.Fail(key, fmt.Sprintf("the dynamic ruleguard checker constructed %d times with the same parameters (%s) behaves in %d different ways", n, v.name, len(seen)),
 				map[string]interface{}{"rules": strings.ReplaceAll(v.rules, dir, "<rules>"), "failOn": v.failOn, "distinct_outcomes": outs, "target": string(target.Src),
 					"rule_file_template": "every file declares group verifShared (message names the file) and a private group verifOnly<i>",
 					"replay":             "go-critic check -enable=ruleguard -@ruleguard.rules=<list> on the target file, several times (cwd inside the repository module so that the dsl import resolves)"})
@@ -603,6 +612,148 @@ func analysisStream(meta *common.Meta, tier, outDir string) {
 func fileExists(p string) bool {
 	_, err := os.Stat(p)
 	return err == nil
+}
+
+// testVariantStream: packages whose in-package _test.go files change what is true about the NON-test files (a test-only
+// String()/Error() method makes a type implement an interface, a test-only method set changes a type switch). The
+// go/analysis driver analyses both variants ("p" and "p [p.test]"); what the analysis binaries print must be the same
+// in every run (set and order) and must contain the diagnostics of both variants, as computed in-process.
+func testVariantStream(meta *common.Meta, tier, outDir string) {
+	ws := filepath.Join(outDir, "ws_testvariants")
+	os.RemoveAll(ws)
+	common.WriteFile(filepath.Join(ws, "go.mod"), "module wstv\n\ngo 1.20\n")
+	nPkgs := 8
+	for i := 0; i < nPkgs; i++ {
+		pkg := fmt.Sprintf("tv%d", i)
+		var a, t strings.Builder
+		// no imports at all (not even testing): every process would otherwise type-check those dependencies from source
+		fmt.Fprintf(&a, "package %s\n\ntype Stringer interface{ String() string }\n\ntype T%d struct{ n int }\n\ntype E%d struct{ msg string }\n\n", pkg, i, i)
+		// non-test file: type switches whose case order matters only once the test-only methods exist
+		fmt.Fprintf(&a, "func Describe%d(v interface{}) string {\n\tswitch x := v.(type) {\n\tcase Stringer:\n\t\treturn x.String()\n\tcase *T%d:\n\t\treturn string(rune(x.n))\n\tcase error:\n\t\treturn x.Error()\n\tcase *E%d:\n\t\treturn x.msg\n\t}\n\treturn \"\"\n}\n\n", i, i, i)
+		fmt.Fprintf(&a, "func Plain%d(IN int, xs []int) int {\n\tif len(xs) >= 0 {\n\t\tIN = IN + 1\n\t}\n\treturn IN\n}\n", i)
+		for k := 0; k < i%3; k++ {
+			fmt.Fprintf(&a, "\nfunc Pad%d_%d(a int, b int) bool { return !(a != b) }\n", i, k)
+		}
+		fmt.Fprintf(&t, "package %s\n\n// test-only methods: with them *T%d is a Stringer and *E%d an error\nfunc (t *T%d) String() string { return \"T\" }\n\nfunc (e *E%d) Error() string { return e.msg }\n\nfunc helperDescribe%d() bool { return Describe%d(&T%d{}) == \"\" }\n", pkg, i, i, i, i, i, i, i)
+		common.WriteFile(filepath.Join(ws, pkg, "a.go"), a.String())
+		common.WriteFile(filepath.Join(ws, pkg, "export_test.go"), t.String())
+	}
+	// expected set: both variants of every package, library run in-process
+	cfg := &packages.Config{Mode: packages.NeedName | packages.NeedFiles | packages.NeedCompiledGoFiles | packages.NeedImports | packages.NeedTypes | packages.NeedSyntax | packages.NeedTypesInfo | packages.NeedTypesSizes,
+		Tests: true, Dir: ws, Env: common.GoEnv(), Fset: token.NewFileSet()}
+	lpkgs, err := packages.Load(cfg, "./...")
+	if err != nil {
+		meta.TieBroken = append(meta.TieBroken, "test-variant workspace does not load: "+err.Error())
+		return
+	}
+	infos := fw.Infos()
+	set, err := fw.NewSet(cfg.Fset, infos)
+	common.Must(err)
+	want := map[string]bool{}
+	variantOnly := 0
+	perVariant := map[string]map[string]bool{}
+	for _, lp := range lpkgs {
+		if strings.HasSuffix(lp.ID, ".test") || len(lp.Errors) > 0 {
+			continue
+		}
+		set.Ctx.SetPackageInfo(lp.TypesInfo, lp.Types)
+		perVariant[lp.ID] = map[string]bool{}
+		for _, f := range lp.Syntax {
+			tf := cfg.Fset.File(f.Pos())
+			set.Ctx.SetFileInfo(filepath.Base(tf.Name()), f)
+			for ci, c := range set.Checkers {
+				if infos[ci].Name == "ruleguard" {
+					continue
+				}
+				func() {
+					defer func() { recover() }()
+					for _, w := range c.Check(f) {
+						p := cfg.Fset.Position(w.Pos)
+						k := fmt.Sprintf("%s:%d:%d: %s", p.Filename, p.Line, p.Column, infos[ci].Name)
+						want[k] = true
+						perVariant[lp.ID][k] = true
+					}
+				}()
+			}
+		}
+	}
+	for id, ks := range perVariant {
+		if !strings.Contains(id, "[") {
+			continue
+		}
+		base := perVariant[strings.Fields(id)[0]]
+		for k := range ks {
+			if !strings.HasSuffix(strings.Split(k, ":")[0], "_test.go") && !base[k] {
+				variantOnly++
+			}
+		}
+	}
+	meta.Distribution["test_variant_only_diagnostics_on_non_test_files"] = variantOnly
+	if variantOnly == 0 {
+		meta.TieBroken = append(meta.TieBroken, "test-variant workspace: no diagnostic of a non-test file depends on the in-package test files (stream vacuous)")
+	}
+	// every process type-checks the synthesized test main's dependencies (testing, ...) from source: ~30 CPU-seconds per
+	// run, so the quick tier affords 3 + 2 runs (the comparison with the expected set does not need many), thorough 40 + 40
+	runsOf := map[string]int{"go-critic-analysis": 3, "gocritic-analysis": 2}
+	if tier == "thorough" {
+		runsOf = map[string]int{"go-critic-analysis": 40, "gocritic-analysis": 40}
+	}
+	args := []string{"-enable-all", "-disable=", "./..."}
+	total := 0
+	for _, exe := range []string{"go-critic-analysis", "gocritic-analysis"} {
+		bin := filepath.Join(common.BinDir(), exe)
+		if !fileExists(bin) {
+			continue
+		}
+		runs := runsOf[exe]
+		raws := make([]string, runs)
+		errs := make([]error, runs)
+		fw.Parallel(runs, func(r int) {
+			so, se, _, err := common.RunSplit(240*time.Second, ws, common.GoEnv("GOMAXPROCS=8"), bin, args...)
+			raws[r], errs[r] = se+"\n"+so, err
+		})
+		total += runs
+		reportedSet, reportedRun := false, false
+		for r := 0; r < runs; r++ {
+			if errs[r] != nil {
+				meta.Fail("C02/analyzer/run", exe+" did not finish on the test-variant workspace: "+errs[r].Error(), args)
+				break
+			}
+			got := map[string]bool{}
+			for _, l := range strings.Split(raws[r], "\n") {
+				if m := anPosRE.FindStringSubmatch(l); m != nil {
+					got[fmt.Sprintf("%s:%s:%s: %s", m[1], m[2], m[3], m[4])] = true
+				}
+			}
+			var missing, extra []string
+			for k := range want {
+				if !got[k] {
+					missing = append(missing, k)
+				}
+			}
+			for k := range got {
+				if !want[k] {
+					extra = append(extra, k)
+				}
+			}
+			sort.Strings(missing)
+			sort.Strings(extra)
+			if (len(missing) > 0 || len(extra) > 0) && !reportedSet {
+				reportedSet = true
+				meta.Fail("C02/analyzer/test-variant-diagnostics", fmt.Sprintf("%s (run %d of %d): the diagnostics printed for packages with in-package test files are not those of the package and its test variant", exe, r+1, runs),
+					map[string]interface{}{"binary": exe, "workspace": ws, "missing": clipArgs(missing), "unexpected": clipArgs(extra),
+						"example_package": readFirst(filepath.Join(ws, "tv0", "a.go")), "example_test_file": readFirst(filepath.Join(ws, "tv0", "export_test.go")),
+						"replay": exe + " -enable-all -disable= ./... in the workspace, several times"})
+			}
+			if r > 0 && raws[r] != raws[0] && !reportedRun {
+				reportedRun = true
+				a, b := firstDiffLine(raws[0], raws[r])
+				meta.Fail("C02/analyzer/unstable-output", fmt.Sprintf("%s: run 1 and run %d on the test-variant workspace print different output", exe, r+1),
+					map[string]interface{}{"binary": exe, "workspace": ws, "run_1": a, "run_k": b})
+			}
+		}
+	}
+	meta.Distribution["test_variant_processes"] = total
 }
 
 func firstDiffLine(a, b string) (string, string) {
